@@ -19,6 +19,7 @@ fn main() {
             max_len: args.p_u64("max_len", 6) as usize,
         }),
         "c02" | "c14r" => Box::new(fvh::c02::C02 {
+            only_discipline: args.p_bool("only_discipline"),
             hostile: args.cmd == "c14r",
             max_ops: args.p_u64("max_ops", 600) as usize,
             max_stream: args.p_u64("max_stream", 1 << 20) as usize,
@@ -28,6 +29,17 @@ fn main() {
             args.p_u64("max_ops", 300) as usize,
             args.p_u64("max_faults", 24) as usize,
         )),
+        "c01" => Box::new(fvh::c01::C01 {
+            max_size: args.p_u64("max_size", 3000) as usize,
+        }),
+        "c04" => Box::new(fvh::c04::C04 {
+            max_len: args.p_u64("max_len", 2048) as usize,
+        }),
+        "c05" => Box::new(fvh::c05::C05::new(args.p_u64("max_size", 3000) as usize)),
+        "c09" => Box::new(fvh::c09::C09 {}),
+        "c07" => Box::new(fvh::c07::C07 {
+            all_formats: args.p_bool("all"),
+        }),
         "c16" => Box::new(fvh::c16::C16 {
             mode: args.p_str("mode", "enum"),
             max_len: args.p_u64("max_len", 6) as usize,
